@@ -26,6 +26,7 @@ type Spec struct {
 	ExclRespBody   bool      `json:"excl_resp_body,omitempty"`   // validator: Options.ExcludeResponseBody
 	InclRespStatus bool      `json:"incl_resp_status,omitempty"` // validator: Options.IncludeResponseStatus
 	VHOrder        string    `json:"vh_order,omitempty"`         // vh_*: "" (Load, then Middleware) | mw_first | reload
+	Rewrap         bool      `json:"rewrap,omitempty"`           // validator: Middleware() is called twice, for two handlers; requests go through the second wrapper
 	Reqs           []Req     `json:"reqs"`
 }
 
@@ -522,6 +523,7 @@ func Gen(seed uint64, tier string) *Spec {
 		s.ErrFunc = simfw.Pick(r, []string{"default", "default", "record", "silent", "alt"})
 		s.LogFunc = simfw.Pick(r, []string{"default", "record"})
 		s.MultiError = r.Chance(1, 3)
+		s.Rewrap = r.Chance(1, 5)
 		s.ExclRespBody = r.Chance(1, 6)
 		s.InclRespStatus = r.Chance(1, 6)
 	} else {
@@ -529,7 +531,7 @@ func Gen(seed uint64, tier string) *Spec {
 		s.Encoder = simfw.Pick(r, []string{"default", "validation", "record"})
 		s.VHOrder = simfw.Pick(r, []string{"", "", "mw_first", "reload"})
 	}
-	s.Auth = simfw.Pick(r, []string{"ok", "ok", "read_ok", "read_ok", "fail", "read_fail", "none"})
+	s.Auth = simfw.Pick(r, []string{"ok", "ok", "read_ok", "read_ok", "fail", "read_fail", "none", "panic"})
 	if s.Kind != "validator" && s.Auth == "none" {
 		s.Auth = "ok" // the older handler installs a no-op callback itself
 	}
